@@ -84,7 +84,8 @@ TMPL_DBL_JACOB_IMP(ep2, fp2);
 #if EP_ADD == BASIC || !defined(STRIP)
 
 void ep2_dbl_basic(ep2_t r, const ep2_t p) {
-	if (ep2_is_infty(p)) {
+	if (ep2_is_infty(p) || fp2_is_zero(p->y)) {
+		/* Doubling a point of order two gives the identity. */
 		ep2_set_infty(r);
 		return;
 	}
@@ -92,7 +93,8 @@ void ep2_dbl_basic(ep2_t r, const ep2_t p) {
 }
 
 void ep2_dbl_slp_basic(ep2_t r, fp2_t s, const ep2_t p) {
-	if (ep2_is_infty(p)) {
+	if (ep2_is_infty(p) || fp2_is_zero(p->y)) {
+		/* Doubling a point of order two gives the identity. */
 		ep2_set_infty(r);
 		return;
 	}
